@@ -512,12 +512,13 @@ def placeOKM (vis : Var → Bool) (vvty : Var → VTy) : VExpr → Bool
   | .swz (.vglobal id) sl => vis (.glob id) && (match vvty (.glob id) with | .vec _ _ => true | _ => false) && decide ((sl.map slotIdx).Nodup)
   | _ => false
 
-/-- operands of a binary / compound operator carried out at type `T`: a scalar `T` must be int / uint (shifts) or
-int / uint / float; `%` needs a non-float kind -/
+/-- operands of a compound assignment carried out at type `T`: a scalar `T` must be int / uint (shifts) or int / uint / float.
+(Until fix batch 3 `%=` also needed a non-float kind: the exporter emitted the operator Metal does not have — known finding
+metal-remainder-operator-on-floats; since 92d66eb + 35faaaa it emits `l = metal::fmod(l, r)`, inside the theorem.) -/
 def binSideB (m : MBin) (T : VTy) : Bool :=
-  (match T with
-    | .sc k => if Msl.isShift m then intK k else arithK k
-    | .vec _ _ => true) && !(m == .mod && T.scalar == .float)
+  match T with
+  | .sc k => if Msl.isShift m then intK k else arithK k
+  | .vec _ _ => true
 
 /-- the shape a value of a type has -/
 def shaped : VTy → VVal → Bool
